@@ -5,6 +5,7 @@ package state
 
 import (
 	"fmt"
+	"strings"
 
 	"github.com/hashicorp/consul/acl"
 	"github.com/hashicorp/consul/agent/consul/stream"
@@ -41,11 +42,14 @@ type EventSubjectConfigEntry struct {
 }
 
 func (s EventSubjectConfigEntry) String() string {
+	// The config entry table is indexed by the lower-cased name, so a
+	// subscriber to "Web" is served the entry written as "web": events have to
+	// be routed the same way (as EventSubjectService does).
 	return fmt.Sprintf(
 		"%s/%s/%s",
 		s.EnterpriseMeta.PartitionOrDefault(),
 		s.EnterpriseMeta.NamespaceOrDefault(),
-		s.Name,
+		strings.ToLower(s.Name),
 	)
 }
 
